@@ -4,6 +4,7 @@ import NutsModel.C12.Ecma
 import NutsModel.C12.Consumer
 import NutsModel.C12.Formats
 import NutsModel.C12.Registration
+import NutsModel.C12.EnvelopeJSON
 import NutsModel.Facts.C12
 open Lean Nuts.Drv Nuts.C12 Nuts
 
@@ -293,6 +294,30 @@ def step (st : St) (j : Json) : St × List String :=
     let c2 := match pdf with | some pf => c1.matchWith (difClaimFormats (some pf)) | none => c1
     let chosen := presenterFormat Nuts.Facts.C12.vpFormatPreference defaults verifier pdf
     (st, [s!"formats chosen={chosen} step1={showFMap (match c1.map with | some m => m | none => [])} step2={showFMap (match c2.map with | some m => m | none => [])}"])
+  | "envjson" =>
+    -- Envelope.UnmarshalJSON / MarshalJSON / ParseEnvelope routing; the libraries' verdicts per byte string are data
+    let vpOf (s : String) : VPVerdict := match s with | "jwt" => .jwt true | "jwt-unparsable" => .jwt false | "ld" => .ld | _ => .bad
+    let single (x : Json) : SingleText := { vp := vpOf (jStr x "vp"), validJSON := jBool x "json" }
+    let b := jObj j "envBytes"
+    let entries : List ArrEntry := (jArr b "entries").map fun e =>
+      { isString := jBool e "isString", asString := single (jObj e "asString"), asMarshalled := single (jObj e "asMarshalled") }
+    let top : JTop := match jStr b "top" with | "invalid" => .invalid | "array" => .array entries | _ => .other
+    let raw : EnvBytes := { first := (jStr b "first").toList.head?, top := top, vp := vpOf (jStr b "vp") }
+    let outer : Outer := match jStr j "outer" with | "invalid" => .invalid | "str" => .str raw | _ => .other raw
+    let line := match unmarshalEnvelope outer with
+      | .err _ => "envjson err marshal=none again=none"
+      | .panic _ => "envjson panic"
+      | .ok (kept, sh) =>
+        match marshalEnvelope Nuts.Facts.C12.envelopeAsIsFirstBytes kept with
+        | .panic _ => s!"envjson ok {sh.show} marshal=panic again=none"
+        | .err _ => s!"envjson ok {sh.show} marshal=err again=none"
+        | .ok m =>
+          let form := match m with | .asIs => "asis" | .quoted => "quoted"
+          let again := match unmarshalEnvelope (reread kept m) with
+            | .ok (_, sh2) => if sh2 == sh then "same" else "differs"
+            | _ => "err"
+          s!"envjson ok {sh.show} marshal={form} again={again}"
+    (st, [line])
   | "vpformat" =>
     (st, ["vpformat " ++ chooseVPFormat Nuts.Facts.C12.vpFormatPreference (jStrs j "supported")])
   | "fields" =>
